@@ -111,7 +111,7 @@ theorem checkSignature_good {owner : String} {c : Cfg} {tok : TokenFacts}
   unfold checkSignature at h
   cases hk : keyLookup c tok with
   | error => simp [hk] at h
-  | nilKey => simp [hk] at h
+  | nilKey => simp only [hk] at h; split at h <;> cases h
   | emptySecret =>
     right
     simp only [hk] at h
